@@ -21,7 +21,7 @@ def stream(chk):
                 if not chk.thorough and n == 4 and rng.random() > 0.12:
                     continue
                 out.append((t, list(pat), rng.choice(WEIGHTS), rng.choice([1, 2, 99]), rng.random() < 0.5, rng.choice([0, -1]), 'exhaustive'))
-    for _ in range(chk.n(900, 30000)):
+    for _ in range(chk.n(2500, 30000)):
         k = rng.choice([3, 4, 5, 6, 7, 8, 9, chk.n(10, 14)])
         t = gl.rand_nested(rng, k)
         pool = rng.choice([[1, 0], [1, 0, -1], [1, 1, 0, -1, -1], [1, 0, 0, 0, -1]])
@@ -31,7 +31,7 @@ def stream(chk):
         out.append((t, pat, rng.choice(WEIGHTS), rng.choice([1, 2, 3, 99]), rng.random() < 0.5, rng.choice([0, -1]), 'random'))
     # strongly asymmetric weights with a limit that cannot bind: a state may be dropped at a node only when it is dominated for BOTH
     # states of the parent, which only shows when gain and loss weight differ by more than one unit
-    for _ in range(chk.n(2500, 40000)):
+    for _ in range(chk.n(5000, 40000)):
         k = rng.choice([5, 6, 7, 8, 9, 10])
         t = gl.rand_nested(rng, k)
         pool = rng.choice([[1, 0], [1, 0, 0], [1, 1, 0], [1, 0, -1]])
@@ -41,7 +41,7 @@ def stream(chk):
         out.append((t, pat, rng.choice([(1, 3), (1, 4), (1, 5), (2, 5), (3, 5), (5, 1), (4, 1), (5, 2), (3, 1)]), 99, rng.random() < 0.5,
                     rng.choice([0, -1]), 'asymmetric-weights'))
     # clades whose leaves are all missing (the undetermined state must stay undetermined)
-    for _ in range(chk.n(400, 10000)):
+    for _ in range(chk.n(1200, 10000)):
         k = rng.choice([4, 5, 6, 7, 8, 9])
         t = gl.rand_nested(rng, k)
         pat = [rng.choice([1, 0, 0, 1, -1]) for _ in range(k)]
@@ -225,7 +225,7 @@ def run_phybo_modes(chk):
     """restriction / weighted variants of PhyBo._get_GLS and the top-down mode, on a stub object (tree + taxa only)"""
     rng = chk.rng
     fails = []
-    n = chk.n(700, 20000)
+    n = chk.n(2000, 20000)
     # corpus: inputs of recorded findings run first (a listed finding that still reproduces prints KNOWN-FINDING)
     corpus = [([2, [4, [5, 0], 3, 1]], {2: -1, 4: 1, 5: -1, 0: -1, 3: 1, 1: 0}, -1, 'topdown', 2),
               ([[3, 7], [[6, 0], 2], [[5, 1], 4]], {3: 0, 7: 1, 6: 0, 0: 0, 2: 1, 5: 0, 1: -1, 4: -1}, -1, 'topdown', 2),
